@@ -24,4 +24,6 @@ rsync -a --exclude .git --exclude replays --exclude evidence /verif/ $W/verif/
 V=$(grep -m1 '^VIOLATION' $W/check.log)
 if [ $RC -eq 1 ] && [ -n "$V" ]; then VERDICT=CAUGHT; else VERDICT=MISSED; fi
 echo "RESULT $PID $(basename $(dirname $PATCH)) suite=$SUITE demo=$DEMORES check_rc=$RC $VERDICT"
-grep -E '^(FAILING-INPUT|DISAGREEMENT|BROKEN-OBLIGATION|VIOLATION|KNOWN-FINDING|OK|ERROR)' $W/check.log | cut -c1-400 | head -8
+grep -E '^(FAILING-INPUT|DISAGREEMENT|BROKEN-OBLIGATION|OK|ERROR)' $W/check.log | cut -c1-400 | head -6
+grep -E '^VIOLATION' $W/check.log | head -2
+echo "counts: failing-input=$(grep -c '^FAILING-INPUT' $W/check.log) disagreement=$(grep -c '^DISAGREEMENT' $W/check.log) broken-obligation=$(grep -c '^BROKEN-OBLIGATION' $W/check.log) known=$(grep -c '^KNOWN-FINDING' $W/check.log)"
